@@ -473,6 +473,9 @@ func runStream(e *simcore.Env, tp *simcore.Tape) {
 			if reqs[i].Criteria != nil {
 				shape += "+criteria"
 			}
+			if reqs[i].Limit < 1000000 {
+				shape += ":capped" // a limit that the scan cap (limit+offset) can make binding before the filter
+			}
 			e.Fail("vectorized-equals-row", "stream:"+kind+":"+shape, "request %d (%s):\n vectorized (%d rows): %s\n row path   (%d rows): %s", i, descs[i], len(ans[0][i].rows), clip(x), len(ans[1][i].rows), clip(y))
 			return
 		}
